@@ -5,7 +5,8 @@ MembershipGuard::blocking_write) reaches a durable-write sink; (b) NodeBuilder::
 membership from a value whose provenance includes a read from storage (or some start-up function other
 than the per-commit path re-applies configuration entries), not only RaftNodeConfig.cluster.initial_cluster;
 (c) the initial role (learner vs voter) is chosen from restored state, not only from the static
-configuration.  Necessary conditions, not the whole behaviour: a sink / a load being reachable does not
+configuration; (d) the live half: every committed Config entry reaches Membership::apply_config_change
+(Payload::Config arm of process_batch) and the roles are told (MembershipApplied) only after it.  Necessary conditions, not the whole behaviour: a sink / a load being reachable does not
 show that the right bytes are written or read."""
 from .common import *
 from .helpers_r3 import *
@@ -118,3 +119,29 @@ def run(ctx):
                       "initial role depends on restored state: %s" % ev[:3],
                       "whether the node starts as Learner is decided only by the static configuration (RaftNodeConfig::is_learner): learner D that applied its own promotion "
                       "and restarts comes back as LearnerState (never votes, tries to join again) while every other node counts it as a voter", loc(b, bi))
+
+    # ---------------------------------------------------------------- C28-d committed config entries are applied to the node table
+    pb = ctx.anchor(F.method, "DefaultCommitHandler", "process_batch")
+    if pb:
+        mb = F.main_body(pb)
+        conds = edge_conditions(mb)
+        arms = [c for c in conds.values() if c.kind == "discr" and c.variants == {"Config"} and (c.adt or "").endswith("entry_payload::Payload")]
+        ctx.floor("C28-d", len(arms), 1, "Payload::Config arm in DefaultCommitHandler::process_batch")
+        app = [bi for (bi, t) in calls_matching(mb, r"DefaultCommitHandler::apply_config_change$")]
+        nxt = frozenset(bi for (bi, t) in calls_matching(mb, r"::next$"))
+        for n, c in enumerate(arms):
+            seen, _p = mb.reach_from(c.edge["dst"], stop_blocks=nxt)
+            ctx.check("C28-d", "%s#Payload::Config[%d]#applied" % (fkey(pb), n), any(a in seen for a in app),
+                      "a committed Config entry reaches apply_config_change before the next entry is looked at",
+                      "the Payload::Config arm of process_batch never calls apply_config_change: a committed AddNode/BatchPromote/BatchRemove is never reflected in this node's "
+                      "member table, so its voters()/quorum sizes stay at the old configuration while other nodes moved on", loc(mb, c.edge["dst"]))
+    if ch:
+        mb = F.main_body(ch)
+        ac = [bi for (bi, t) in calls_matching(mb, r"Membership::apply_config_change$")]
+        ev = [(bi, st) for (bi, si, st) in agg_sites(mb, "InternalEvent", "MembershipApplied")]
+        ctx.floor("C28-d", len(ev), 1, "InternalEvent::MembershipApplied in DefaultCommitHandler::apply_config_change")
+        for (bi, st) in ev:
+            ok = any(mb.dominates(a, bi) for a in ac) and guarded_by(mb, bi, lambda c: c.kind == "discr" and c.variants == {"Ok"} and cond_calls(F, c, r"Membership::apply_config_change$"))[0]
+            ctx.check("C28-d", "%s#MembershipApplied#after-apply" % fkey(ch), ok, "roles are notified only after the table change succeeded",
+                      "MembershipApplied is sent without a preceding successful Membership::apply_config_change: a learner evaluates its promotion (and a leader rebuilds its voter "
+                      "cache) against the old table", loc(mb, bi))
